@@ -17,7 +17,7 @@ var externModels map[string]externModel
 var externModelDocs = map[string]string{
 	"strings.HasPrefix":             "HasPrefix(s, lit) <=> len(s) >= len(lit) && s[i] == lit[i] for all i (lit constant)",
 	"strings.HasSuffix":             "HasSuffix(s, lit) <=> len(s) >= len(lit) && s[len(s)-len(lit)+i] == lit[i] (lit constant)",
-	"unicode/utf8.DecodeRuneInString": "DecodeRuneInString(s): len(s)==0 => (RuneError,0); else 1<=size<=4, size<=len(s), 0<=r<=0x10FFFF, s[0]<0x80 => (r,size)==(s[0],1), s[0]>=0x80 => r>=0x80",
+	"unicode/utf8.DecodeRuneInString": "DecodeRuneInString(s): len(s)==0 => (RuneError,0); else 1<=size<=4, size<=len(s), 0<=r<=0x10FFFF, s[0]<0x80 => (r,size)==(s[0],1), s[0]>=0x80 => r>=0x80, size>i => 0x80<=s[i]<=0xBF for i=1..3",
 	"strings.ContainsRune":          "ContainsRune(lit, r) <=> r is one of the runes of the constant lit (ASCII constants only); for any other set only ContainsRune(s, r) => r >= 0",
 	"(*sync.Mutex).Lock":            "Lock sets the ghost flag held(m); requires !held(m) (no re-entrancy)",
 	"(*sync.Mutex).Unlock":          "Unlock requires held(m) and clears it",
@@ -153,6 +153,10 @@ func modelDecodeRune(e *Enc, c *ssa.CallCommon, args []Val, pos token.Pos) ([]Va
 	e.assume(Implies(And(Gt(StrLen(s), IntLit(0)), Lt(b0, IntLit(0x80))), And(Eq(r, b0), Eq(w, IntLit(1)))))
 	e.assume(Implies(And(Gt(StrLen(s), IntLit(0)), Ge(b0, IntLit(0x80))), Ge(r, IntLit(0x80))))
 	e.assume(And(Ge(b0, IntLit(0)), Le(b0, IntLit(255))))
+	// a size above one means a valid multi-byte encoding: every further byte of it is a continuation byte
+	for i := int64(1); i <= 3; i++ {
+		e.assume(Implies(Gt(w, IntLit(i)), And(Ge(StrAt(s, IntLit(i)), IntLit(0x80)), Le(StrAt(s, IntLit(i)), IntLit(0xBF)))))
+	}
 	return []Val{{T: r, Typ: types.Typ[types.Int32]}, {T: w, Typ: types.Typ[types.Int]}}, true
 }
 
@@ -166,7 +170,8 @@ func modelContainsRune(e *Enc, c *ssa.CallCommon, args []Val, pos token.Pos) ([]
 	if !ok {
 		// a set that is not an ASCII constant: only "a string contains no negative rune" is modelled
 		// (IndexRune returns -1 for values that are not valid runes)
-		r := e.fresh("containsrune", SBool)
+		e.declareFun("rune_in", []Sort{SStr, SInt}, SBool)
+		r := e.define("containsrune", App(SBool, "rune_in", e.coerce(args[0]), e.coerce(args[1])))
 		e.assert(Implies(r, Ge(e.coerce(args[1]), IntLit(0))))
 		return []Val{{T: r, Typ: types.Typ[types.Bool]}}, true
 	}
@@ -181,6 +186,9 @@ func modelContainsRune(e *Enc, c *ssa.CallCommon, args []Val, pos token.Pos) ([]
 	}
 	r := e.fresh("containsrune", SBool)
 	e.assert(Eq(r, Or(alts...)))
+	// the same fact in terms of the uninterpreted membership predicate that contracts can name (runein)
+	e.declareFun("rune_in", []Sort{SStr, SInt}, SBool)
+	e.assert(Eq(App(SBool, "rune_in", e.coerce(args[0]), rv), r))
 	return []Val{{T: r, Typ: types.Typ[types.Bool]}}, true
 }
 
